@@ -124,6 +124,7 @@ class Result:
         s.routes = []; s.reached = {}; s.stats = {}; s.wall = 0.0; s.funcs = []; s.samples = []; s.asserts = 0; s.models_used = []
     def ok(s): return not s.bugs and not s.inconclusive
 
+OPTIONAL_PARAMS = {'xd': 0}
 def run_harness(ll, entry, params=None, setup=None, on_end=None, env_models=None, witness=None, eng_opts=None, args=(), max_bugs=8, allow_throw=None, time_limit=None, concrete=None, nsamples=3):
     """Symbolically execute harness entry `entry` of module `ll` over all paths.
     params: dict of concrete harness parameters (read by models such as verif_len)
@@ -136,7 +137,9 @@ def run_harness(ll, entry, params=None, setup=None, on_end=None, env_models=None
     eng.models['verif_len'] = lambda st, a: params.get('len', 0)
     def v_param(st, a):
         nm = eng.read_cstr(st, a[0]).decode()
-        if nm not in params: raise E.Inconclusive('harness', 'missing harness parameter ' + nm)
+        if nm not in params:
+            if nm in OPTIONAL_PARAMS: return OPTIONAL_PARAMS[nm]       # run parameters added later with a default that keeps the earlier behaviour
+            raise E.Inconclusive('harness', 'missing harness parameter ' + nm)
         return params[nm]
     eng.models['verif_param'] = v_param
     used = set()
